@@ -3,8 +3,9 @@
 (* Only the modifying calls are transitions (SpecM); the queries are       *)
 (* checked in every reached state by QueryInv.                             *)
 EXTENDS NodeTree
-KindsQ == {<<"a", 0>>, <<"b", 7>>}
-KindsT == {<<"a", 0>>, <<"a", 5>>, <<"b", 7>>, <<"", 0>>}
+\* "~b": a node with a non-text identifier (raw key "b"); text keys never match it
+KindsQ == {<<"a", 0>>, <<"~b", 7>>}
+KindsT == {<<"a", 0>>, <<"b", 7>>, <<"~b", 5>>, <<"", 0>>}
 PosQ3  == -2..3
 PosT   == -3..4
 KeysQ  == {"a", "b", "c"}
